@@ -34,3 +34,28 @@ Theorem C16_recipe_loop_regenerated :
   SrcFragments.Combiner_first_ingredient_edge = 1%Z /\ (forall k : Z, SrcFragments.Combiner_recipe_index k = k).
 Proof. exact (conj TieNodes.combiner_first_ingredient_edge_src TieNodes.combiner_recipe_index_src). Qed.
 Print Assumptions C16_recipe_loop_regenerated.
+
+(* the splitter's worker hands out the head of what is left on the pallet, the emptied pallet only when nothing is left,
+   and nothing after the pallet (theories/Factory/FactoryBlocks.v, every world) *)
+From FV Require FactoryBlocks.
+From RecordUpdate Require Import RecordUpdate.
+Theorem C16_splitter_emits_the_head_next :
+  forall w p n x rest,
+  pkd (me w p) = KSplitWorker -> sc_phase (me w p) = 0%nat ->
+  i_contents (get_item w (pit (me w p))) = x :: rest ->
+  sc_next w p n = sc_dispatch (upd_item w (pit (me w p)) (fun y => y <| i_contents := rest |>)) p n x 0.
+Proof. exact FactoryBlocks.splitter_next_is_head. Qed.
+Print Assumptions C16_splitter_emits_the_head_next.
+
+Theorem C16_splitter_pallet_comes_last :
+  forall w p n,
+  pkd (me w p) = KSplitWorker -> sc_phase (me w p) = 0%nat ->
+  i_contents (get_item w (pit (me w p))) = [] ->
+  sc_next w p n = sc_dispatch w p n (pit (me w p)) 1.
+Proof. exact FactoryBlocks.splitter_pallet_comes_last. Qed.
+Print Assumptions C16_splitter_pallet_comes_last.
+
+Theorem C16_splitter_nothing_after_the_pallet :
+  forall w p n ph, sc_phase (me w p) = S ph -> sc_next w p n = sc_release w p n.
+Proof. exact FactoryBlocks.splitter_nothing_after_the_pallet. Qed.
+Print Assumptions C16_splitter_nothing_after_the_pallet.
